@@ -29,22 +29,24 @@ on a scratch worktree). They are kept under `/verif/seeded/<id>/`
 (patch.diff, demo_test.go, the agent's README.md, meta.json). None is ever
 committed to /repo.
 
-Result: 115 changes: 3 waves x 11 properties x 3 (the second and third wave
+Result: 131 changes: 3 waves x 11 properties x 3 (the second and third wave
 were also given one-line descriptions of the earlier changes so as not to
 repeat them, and the third was asked for the hardest-to-notice realistic
 change), plus a fourth wave of 16 in which each of four agents got all eleven
 property texts and a set of files to stay within (the small files nobody had
-touched; parse.go/disasm.go; machine.go/reflect.go; CLI and API wrappers).
-113 are reported by a quick check; 2 are recorded as not pursued
+touched; parse.go/disasm.go; machine.go/reflect.go; CLI and API wrappers),
+and a fifth wave of 16 partial regressions of the repair commits themselves
+(each still handles its commit message's own reproduction).
+129 are reported by a quick check; 2 are recorded as not pursued
 (C08-w3-m3 and C09-w3-m3 need sources / strings of 16 MiB and more - beyond
 every size class the properties name, at seconds and hundreds of MB per run).
-106 of the 113 are reported by the check of the property they were written
+122 of the 129 are reported by the check of the property they were written
 against; 7 break another property's statement more directly and are reported
 there (concurrent callers -> C12: C19-w2-m3, C06-w3-m2, C09-w3-m2, C19-w3-m2;
 a failing dump write -> C18: C09-w3-m1; these were written "against" a property
 whose workload has no such dimension).
 Misses when first tried: 3 in wave 1, 13 in wave 2, 18 in wave 3 (hard mode),
-4 in wave 4 - and one wave-4 change (an endless diagnostic loop in the parser)
+4 in wave 4, 6 in wave 5 - and one wave-4 change (an endless diagnostic loop in the parser)
 made the check run for over an hour before the supervisor was given a bound
 on worker deaths (section 12);
 for 3 more (C19 wave 1) the workload was widened on reading the agent's
@@ -104,6 +106,15 @@ The strengthenings, in one list:
   bytes and more and constants larger than the write buffer in C18's fault
   runs; four new corpus files with jumps of 0x8001..0x9000 bytes over code
   whose execution would be visible.
+* Waves 4-5 added: programs with more than 240 constants / locals in C09;
+  an unexported tagged field and a pointer-to-struct field in C06's targets;
+  inputs with special prefixes (byte-order marks, NUL, shebang); worker chunks
+  rotate through GOMAXPROCS 16/1/4/2; a limit class whose temporaries come
+  from every kind of push (literals, constants, locals, fields, TYPE/NAME);
+  compile plants whose offending token is beyond doubt are checked exactly
+  (bad block name, malformed literal, duplicate variable, unknown name, bad
+  selector); program names of 65 535..70 000 bytes; a target with five tagged
+  fields; stack-overflow programs under all 8 observer settings.
 * C19: programs with 236-330 locals; strings up to 4097 bytes; Execute given
   writers of its own; a failing output writer under all 8 settings; runs of
   more than 65 536 instructions.
